@@ -1,5 +1,5 @@
 //@unit sm2_rand
-//@serves C03 C05 C14 C15
+//@serves C03 C05 C14 C15 C20
 //@source gm-sm2/src/fields/fp64.rs
 //@assume rand::thread_rng() is an OS-seeded CSPRNG whose fill_bytes output is uniform and independent (statistical quality is outside this technique); model: fill_bytes is the only function that establishes csprng_bytes(..)
 //@assume the rejection loop of random_u256 terminates with probability 1 (exec_allows_no_decreases_clause)
